@@ -49,7 +49,11 @@ impl Server {
         // println!("\n\n______{}______\n\n", raw_request);
 
 
-        let boxed_request = Request::parse_request(request);
+        let mut boxed_request = Request::parse_request(request);
+        if boxed_request.is_ok() && !boxed_request.as_ref().unwrap().request_uri.starts_with(SYMBOL.slash) {
+            // routing and static file lookup are defined for origin-form targets only
+            boxed_request = Err("request target is not in origin form, it has to start with a slash".to_string());
+        }
         if boxed_request.is_err() {
             let message = boxed_request.err().unwrap();
             eprintln!("unable to parse request: {}", &message);
@@ -146,7 +150,11 @@ impl Server {
         // println!("\n\n______{}______\n\n", raw_request);
 
 
-        let boxed_request = Request::parse(request);
+        let mut boxed_request = Request::parse(request);
+        if boxed_request.is_ok() && !boxed_request.as_ref().unwrap().request_uri.starts_with(SYMBOL.slash) {
+            // routing and static file lookup are defined for origin-form targets only
+            boxed_request = Err("request target is not in origin form, it has to start with a slash".to_string());
+        }
         if boxed_request.is_err() {
             let message = boxed_request.err().unwrap();
 
